@@ -36,8 +36,8 @@ CHECKS = {
    design_ref="DESIGN.md §5 C09"),
 
  "C13": dict(engine="crashx", level="fault_enumeration",
-   text="For each of 11 mutating operations (create/update/delete/move secret, rename/re-flag/describe/create/delete folder, compact folder, change folder password) on the file-system backend the real operation is executed by a driver process under strace; every file-system effect between two marker syscalls is replayed on the pre-state and one crash image is materialised after every effect and for every torn prefix of every write (all byte prefixes in thorough; stride 24 plus fixed offsets in quick). The replay is validated on every run against the real after-state (byte for byte). On the SQLite backend the driver exits without closing the database and every WAL prefix (each frame boundary and one byte either side) is a crash image. Every image is opened through LocalAccount::new_unauthenticated + sign_in and judged: opens; every event log equals its state before or after the operation; the folder served equals the replay of its log.",
-   note="Crash model = process death (completed syscalls persist in order; writes may be torn at any byte); power-loss reordering out of scope (the code never fsyncs). SQLite's own recovery is trusted (WAL prefixes are exactly the states it recovers to); the database file must not change during the operation (checked). Merge/rewind operations are not yet driven.",
+   text="For each of 11 mutating operations (create/update/delete/move secret, rename/re-flag/describe/create/delete folder, compact folder, change folder password) and for two interrupted syncs against a real in-process server (a fast-forward pull of the other device's events; an auto merge that rewinds and re-applies) on the file-system backend the real operation is executed by a driver process under strace; every file-system effect between two marker syscalls is replayed on the pre-state and one crash image is materialised after every effect and for every torn prefix of every write (all byte prefixes in thorough; stride 24 plus fixed offsets in quick). The replay is validated on every run against the real after-state (byte for byte). On the SQLite backend the driver exits without closing the database and every WAL prefix (each frame boundary and one byte either side) is a crash image. Every image is opened through LocalAccount::new_unauthenticated + sign_in and judged: opens; every event log equals its state before or after the operation; the folder served equals the replay of its log.",
+   note="Crash model = process death (completed syscalls persist in order; writes may be torn at any byte); power-loss reordering out of scope (the code never fsyncs). SQLite's own recovery is trusted (WAL prefixes are exactly the states it recovers to); the database file must not change during the operation (checked).",
    technique="exhaustive enumeration of crash points and torn-write prefixes of the real syscall trace of each operation, each image judged by re-opening with the real code",
    design_ref="DESIGN.md §5 C13"),
 
